@@ -375,6 +375,8 @@ type eJSON struct {
 	PlainHost  string   `json:"plain_urlhost"`
 	Plain      *obsJSON `json:"plain_observed,omitempty"`
 	Connect    *obsJSON `json:"connect_observed,omitempty"`
+	TLS        *obsJSON `json:"https_observed,omitempty"`
+	Mitm       *obsJSON `json:"mitm_observed,omitempty"`
 	SkipPlain  bool     `json:"skip_plain,omitempty"`
 	SkipConn   bool     `json:"skip_connect,omitempty"`
 }
@@ -403,19 +405,29 @@ func coqObs(o obsJSON, hostname string) string {
 func eCase(r *rig, j *eJSON) string {
 	connHost := net.JoinHostPort(strings.Trim(j.Host, "[]"), j.Port)
 	pacRes, directRes, isLH, hostname := r.oracles(connHost)
-	plain, conn := "None", "None"
+	plain, conn, tlsS, mitm := "None", "None", "None", "None"
 	if !j.SkipPlain {
 		o := r.request(0, "http", j.PlainHost)
 		j.Plain = &o
 		plain = fmt.Sprintf("(Some (tgt 0 %s %s, %s))", cs("http"), cs(j.PlainHost), coqObs(o, hostname))
 	}
-	if !j.SkipConn {
+	if !j.SkipConn && !r.desc.MITM {
 		o := r.request(1, "", connHost)
 		j.Connect = &o
 		conn = fmt.Sprintf("(Some (tgt 1 %s %s, %s))", cs(""), cs(connHost), coqObs(o, hostname))
 	}
-	return fmt.Sprintf("{| ec_cfg := %s; ec_rules := %s; ec_plain := %s; ec_connect := %s |}",
-		coqCfgd(r.desc, pacRes, directRes, isLH), coqRules(r.rules), plain, conn)
+	if !j.SkipPlain {
+		o := r.request(2, "https", connHost)
+		j.TLS = &o
+		tlsS = fmt.Sprintf("(Some (tgt 0 %s %s, %s))", cs("https"), cs(connHost), coqObs(o, hostname))
+	}
+	if r.desc.MITM {
+		o := r.request(3, "", connHost)
+		j.Mitm = &o
+		mitm = fmt.Sprintf("(Some (tgt 0 %s %s, %s))", cs("https"), cs(connHost), coqObs(o, hostname))
+	}
+	return fmt.Sprintf("{| ec_cfg := %s; ec_rules := %s; ec_plain := %s; ec_connect := %s; ec_tls := %s; ec_mitm := %s |}",
+		coqCfgd(r.desc, pacRes, directRes, isLH), coqRules(r.rules), plain, conn, tlsS, mitm)
 }
 
 // ---------------------------------------------------------------- shards
@@ -673,6 +685,9 @@ func runConfigs(r *rng.R, nF, nE int, ss *shardSet, m *meta) {
 		{Upstream: "socks5://pa.test:3128", Mode: "direct"},
 		{Upstream: "https://pb.test:8443", Mode: "allow", Rules: []string{":8443:rt.test:"}},
 		{Mode: "allow", Rules: []string{"origin.test:80:rt.test:9000", "::rt2.test:"}},
+		{PAC: &pacDesc{Table: map[string]string{}, Default: "HTTPS pb.test:8443"}, Mode: "allow", MITM: true},
+		{PAC: &pacDesc{Table: map[string]string{}, Default: "SOCKS pb.test:8443"}, Mode: "allow", MITM: true},
+		{Upstream: "http://pa.test:3128", Mode: "direct", MITM: true, Direct: []string{`other\.test`}},
 	}
 	for _, d := range corpus {
 		d := d
@@ -695,6 +710,7 @@ func runConfigs(r *rng.R, nF, nE int, ss *shardSet, m *meta) {
 		d := genConfig(r, true)
 		hosts := append([]string{}, "origin.test", "other.test", "pa.test", "pb.test", "localhost")
 		d.Rules = genRulesFor(r, hosts, []string{"80", "8080", "443", "3128", "8443"})
+		d.MITM = r.Chance(1, 5)
 		_, es := genTargets(r, &d, true)
 		for i := range es {
 			es[i].Cfg = d
@@ -747,7 +763,10 @@ func runConfigs(r *rng.R, nF, nE int, ss *shardSet, m *meta) {
 	}
 	for _, j := range ej {
 		e := j.(eJSON)
-		for _, o := range []*obsJSON{e.Plain, e.Connect} {
+		if e.Cfg.MITM {
+			m.Dist["e2e_cfg_mitm"]++
+		}
+		for _, o := range []*obsJSON{e.Plain, e.Connect, e.TLS, e.Mitm} {
 			if o == nil {
 				continue
 			}
@@ -819,7 +838,7 @@ func doReplay(path string, ss *shardSet, m *meta) {
 	case "e2e":
 		var j eJSON
 		json.Unmarshal(data, &j)
-		j.Plain, j.Connect = nil, nil
+		j.Plain, j.Connect, j.TLS, j.Mitm = nil, nil, nil, nil
 		w := newWorld()
 		defer w.close()
 		res := runJob(w, job{desc: j.Cfg, e: []eJSON{j}})
